@@ -470,6 +470,26 @@ PLANS = {
 }
 
 THEOREMS: dict[str, list[str]] = {p: [] for p in PLANS}
+THEOREMS["C03"] = [
+    "Pest.C03.interp_refines_spec", "Pest.C03.parse_agrees_with_spec", "Pest.C03.interp_exc_only_undefined",
+    "Pest.C03.choice_commits", "Pest.C03.choice_next", "Pest.C03.opt_spec", "Pest.C03.and_spec", "Pest.C03.not_spec",
+    "Pest.C03.pred_consumes_nothing", "Pest.C03.bounded_as_unrolled", "Pest.C03.interp_bounded_as_unrolled",
+    "Pest.C03.rep_greedy", "Pest.C03.rule_one_pair", "Pest.run_good", "Pest.step_good", "Pest.restore_after", "Pest.ok_after",
+]
+THEOREMS["C04"] = [
+    "Pest.C04.interp_trivia_and_modifiers", "Pest.C04.trivia_interp_eq", "Pest.C04.seq_trivia_between",
+    "Pest.C04.seq_no_trailing_trivia", "Pest.C04.rep_trailing_trivia_given_back", "Pest.C04.rep_trivia_between",
+    "Pest.C04.rep_first_no_trivia", "Pest.C04.bounded_trivia_as_unrolled", "Pest.C04.peek_all_no_trivia",
+    "Pest.C04.atomic_no_trivia", "Pest.C04.rule_atomicity", "Pest.C04.rule_restores_atomicity",
+    "Pest.C04.atomic_rule_single_pair", "Pest.C04.visible_spec", "Pest.C04.compound_keeps_children",
+    "Pest.C04.trivia_pairs_where_matched",
+]
+THEOREMS["C05"] = [
+    "Pest.C05.push_spec", "Pest.C05.push_literal_spec", "Pest.C05.peek_spec", "Pest.C05.pop_spec", "Pest.C05.drop_spec",
+    "Pest.C05.peek_all_spec", "Pest.C05.pop_all_spec", "Pest.C05.peek_slice_spec", "Pest.C05.matchAll_cons",
+    "Pest.C05.stack_ops_never_raise", "Pest.C05.failed_op_is_identity", "Pest.C03.interp_refines_spec",
+    "Pest.DStack.abs_apply", "Pest.DStack.inv_apply", "Pest.popAllLoop_rel",
+]
 
 
 def choose_passes(rng: random.Random, i: int) -> list[str]:
